@@ -190,4 +190,204 @@ theorem C16_grid_positions3 (n0 n1 n2 : ℕ) (bb : ℕ → ℕ → K) (g c : ℕ
   have := hw.inside (fun _ _ => 0) g ⟨i, hi, j, hj, k, hk, hijk.symm⟩
   exact congrFun this c
 
+/-! ## gaussian_blurring — the values -/
+section blurT
+variable [LinearOrder K] [IsStrictOrderedRing K]
+
+/-- the regenerated cut-off comparison `RIJ < gaussian_cut` on the Euclidean length equals the model's decision on
+the squared length (so the driver needs no square root to decide it) -/
+theorem C16_blur_cut (sqrtf : K → K) (hs : IsSqrt sqrtf) (cut d2 : K) (hd : 0 ≤ d2) :
+    selected (sqrtf d2) cut = selectedSq cut d2 := by
+  unfold selected selectedSq
+  have h0 := hs.nonneg d2 hd
+  have h1 := hs.sq d2 hd
+  rw [Bool.eq_iff_iff]
+  simp only [decide_eq_true_eq, Bool.and_eq_true]
+  constructor
+  · intro h
+    refine ⟨lt_of_le_of_lt h0 h, ?_⟩
+    rw [← h1]
+    exact mul_self_lt_mul_self h0 h
+  · rintro ⟨hc, h⟩
+    by_contra hn
+    have hn' : cut ≤ sqrtf d2 := not_lt.mp hn
+    have := mul_self_le_mul_self hc.le hn'
+    rw [h1] at this
+    exact absurd h (not_lt.mpr this)
+
+/-- the squared minimum-image length is non-negative -/
+theorem C16_dist2_nonneg (d : ℕ) (rint : K → ℤ) (H Hinv : ℕ → ℕ → K) (ppp g p : ℕ → K) :
+    0 ≤ dist2 d rint H Hinv ppp g p := by
+  unfold dist2
+  exact sumRange_sq_nonneg d _
+
+omit [LinearOrder K] [IsStrictOrderedRing K] in
+/-- the regenerated `grid_gaussian` is the normalised Gaussian exp(−r²/2σ²)/√(2πσ²), for any `exp`, `sqrt`, `π` -/
+theorem C16_gauss_weight (expf sqrtf : K → K) (pi sigma r : K) :
+    gridGaussian expf sqrtf pi r sigma = gauss expf sqrtf pi sigma r := by
+  unfold gridGaussian gauss
+  simp only []
+  congr 2
+  ring
+
+/-- for one grid point and one component (any rank), all particle numbers: the value is the sum over the particles
+whose Euclidean minimum-image distance √d2 is below the cut-off of gauss(√d2) · property -/
+theorem C16_blur_def (expf sqrtf : K → K) (hs : IsSqrt sqrtf) (pi sigma cut : K) (np : ℕ) (d2 cond : ℕ → K)
+    (hd : ∀ p, 0 ≤ d2 p) :
+    blurImpl id expf sqrtf pi sigma cut np d2 cond
+      = ∑ p ∈ (range np).filter (fun p => sqrtf (d2 p) < cut), gauss expf sqrtf pi sigma (sqrtf (d2 p)) * cond p := by
+  unfold blurImpl
+  rw [sumRange_eq, Finset.sum_filter]
+  refine Finset.sum_congr rfl fun p _ => ?_
+  rw [← C16_blur_cut sqrtf hs cut (d2 p) (hd p), C16_gauss_weight]
+  unfold selected
+  simp only [id, decide_eq_true_eq]
+
+/-- the whole grid-point computation against the hand-written Spec: minimum-image displacement (C02's `removePbc`),
+Euclidean length, cut-off, Gaussian weight, weighted sum — for every cell, mask, grid point and particle set -/
+theorem C16_blur_refines (expf sqrtf : K → K) (hs : IsSqrt sqrtf) (pi sigma cut : K) (d np : ℕ) (rint : K → ℤ)
+    (H Hinv : ℕ → ℕ → K) (ppp g : ℕ → K) (pos : ℕ → ℕ → K) (cond : ℕ → K) :
+    blurImpl id expf sqrtf pi sigma cut np (fun p => dist2 d rint H Hinv ppp g (pos p)) cond
+      = blurSpec expf sqrtf pi sigma cut np (fun p => sqrtf (dist2 d rint H Hinv ppp g (pos p))) cond := by
+  rw [C16_blur_def expf sqrtf hs pi sigma cut np _ cond (fun p => C16_dist2_nonneg d rint H Hinv ppp g (pos p))]
+  unfold blurSpec
+  rw [sumRange_eq, Finset.sum_filter]
+
+end blurT
+
+/-- over ℝ with the real `exp`, `√`, `π`: the contract `IsSqrt` is met (non-vacuity) and the value is
+Σ_{√d2 < cut} exp(−(√d2)²/2σ²)/√(2πσ²) · property -/
+theorem C16_blur_real (sigma cut : ℝ) (np : ℕ) (d2 cond : ℕ → ℝ) (hd : ∀ p, 0 ≤ d2 p) :
+    blurImpl id Real.exp Real.sqrt Real.pi sigma cut np d2 cond
+      = ∑ p ∈ (range np).filter (fun p => Real.sqrt (d2 p) < cut),
+          Real.exp (-(Real.sqrt (d2 p) * Real.sqrt (d2 p)) / (2 * (sigma * sigma)))
+            / Real.sqrt (2 * Real.pi * (sigma * sigma)) * cond p := by
+  rw [C16_blur_def Real.exp Real.sqrt ⟨fun x _ => Real.sqrt_nonneg x, fun x hx => Real.mul_self_sqrt hx⟩
+    Real.pi sigma cut np d2 cond hd]
+  unfold gauss
+  push_cast
+  rfl
+
+/-- the rank dispatch and the three rank branches of the source are the expected broadcasts (all are the
+per-component weighted sum over the selected particles) -/
+theorem C16_blur_rank_branches :
+    rankBranches = [("cal_type == 'scalar'", "(probability * condition[n, selection]).sum()"),
+      ("cal_type == 'vector'", "(probability[:, np.newaxis] * condition[n, selection]).sum(axis=0)"),
+      ("else", "(probability[:, np.newaxis, np.newaxis] * condition[n, selection]).sum(axis=0)")] ∧
+    calType = [("len(condition.shape) == 2", "cal_type = 'scalar'"), ("len(condition.shape) == 3", "cal_type = 'vector'"),
+      ("len(condition.shape) == 4", "cal_type = 'tensor'"), ("else", "raise ValueError('Wrong input condition variable')")] ∧
+    loopOrder2 = [("i", "n0"), ("j", "n1")] ∧ loopOrder3 = [("i", "n0"), ("j", "n1"), ("k", "n2")] := by
+  decide +kernel
+
+/-! ## time_average -/
+
+/-- the frame interval is (timestep₁ − timestep₀)·dt -/
+theorem C16_time_interval (t0 t1 dt : K) : timeInterval t0 t1 dt = (t1 - t0) * dt := rfl
+
+/-- the regenerated window length `int(round(period/interval, 8))` is ⌊period/interval⌋ for every non-negative
+quotient that is an integer (exact multiples) or lies at least 5·10⁻⁹ below the next integer; `rint` any
+round-to-nearest, `trunc` Python's `int()` -/
+theorem C16_window_len [LinearOrder K] [IsStrictOrderedRing K] [FloorRing K] (rint trunc : K → ℤ)
+    (hr : IsRintHE rint) (ht : ∀ x, 0 ≤ x → trunc x = ⌊x⌋) (period interval : K)
+    (hq : 0 ≤ period / interval) (hf : Int.fract (period / interval) < 1 - 1 / (2 * 10 ^ 8)) :
+    windowLen rint trunc period interval = ⌊period / interval⌋ := by
+  unfold windowLen
+  set q := period / interval with hqdef
+  have hN : (((10 ^ 8 : ℕ)) : K) = 10 ^ 8 := by norm_num
+  rw [hN]
+  have hNpos : (0 : K) < 10 ^ 8 := by positivity
+  set r := rint (q * 10 ^ 8) with hrdef
+  have hnear := hr.near (q * 10 ^ 8)
+  rw [← hrdef] at hnear
+  have hab := abs_le.mp hnear
+  have hm1 : ((⌊q⌋ : ℤ) : K) ≤ q := Int.floor_le q
+  have hfr : q - ((⌊q⌋ : ℤ) : K) < 1 - 1 / (2 * 10 ^ 8) := by
+    have := hf; rwa [Int.fract] at this
+  -- lower bound: ⌊q⌋·10⁸ ≤ r
+  have hlo : (⌊q⌋ : ℤ) * 10 ^ 8 ≤ r := by
+    have h1 : (((⌊q⌋ : ℤ) * 10 ^ 8 : ℤ) : K) - 1 < (r : K) := by
+      push_cast
+      have : ((⌊q⌋ : ℤ) : K) * 10 ^ 8 ≤ q * 10 ^ 8 := mul_le_mul_of_nonneg_right hm1 hNpos.le
+      linarith [hab.2]
+    have h2 : ((⌊q⌋ : ℤ) * 10 ^ 8 - 1 : ℤ) < r := by
+      have : ((((⌊q⌋ : ℤ) * 10 ^ 8 - 1 : ℤ)) : K) < (r : K) := by push_cast; push_cast at h1; exact h1
+      exact_mod_cast this
+    omega
+  -- upper bound: r < (⌊q⌋+1)·10⁸
+  have hhi : r < ((⌊q⌋ : ℤ) + 1) * 10 ^ 8 := by
+    have h1 : (r : K) < ((((⌊q⌋ : ℤ) + 1) * 10 ^ 8 : ℤ) : K) := by
+      push_cast
+      have h3 : q * 10 ^ 8 < (((⌊q⌋ : ℤ) : K) + 1 - 1 / (2 * 10 ^ 8)) * 10 ^ 8 :=
+        mul_lt_mul_of_pos_right (by linarith) hNpos
+      have h4 : (((⌊q⌋ : ℤ) : K) + 1 - 1 / (2 * 10 ^ 8)) * 10 ^ 8 = (((⌊q⌋ : ℤ) : K) + 1) * 10 ^ 8 - 1 / 2 := by
+        field_simp
+      linarith [hab.1]
+    exact_mod_cast h1
+  have hfl : ⌊((r : ℤ) : K) / 10 ^ 8⌋ = ⌊q⌋ := by
+    rw [Int.floor_eq_iff]
+    constructor
+    · rw [le_div_iff₀ hNpos]
+      have : ((((⌊q⌋ : ℤ) * 10 ^ 8 : ℤ)) : K) ≤ (r : K) := by exact_mod_cast hlo
+      norm_num at this ⊢; linarith
+    · rw [div_lt_iff₀ hNpos]
+      have : (r : K) < (((((⌊q⌋ : ℤ) + 1) * 10 ^ 8 : ℤ)) : K) := by exact_mod_cast hhi
+      norm_num at this ⊢; linarith
+  have hnn : (0 : K) ≤ ((r : ℤ) : K) / 10 ^ 8 := by
+    apply div_nonneg _ hNpos.le
+    have h0 : (0 : ℤ) ≤ ⌊q⌋ := Int.floor_nonneg.mpr hq
+    have : (0 : ℤ) ≤ r := le_trans (by positivity) hlo
+    exact_mod_cast this
+  rw [ht _ hnn, hfl]
+
+/-- the contracts of `C16_window_len` are met by the driver's exact `round`/`int` on ℚ, and the boundary input of the
+property (period 0.3, interval 0.1) gets the window 3 -/
+theorem C16_window_len_rat (period t0 t1 dt : ℚ) (hq : 0 ≤ period / ((t1 - t0) * dt))
+    (hf : Int.fract (period / ((t1 - t0) * dt)) < 1 - 1 / (2 * 10 ^ 8)) :
+    windowImpl ratRint ratTrunc period t0 t1 dt = ⌊period / ((t1 - t0) * dt)⌋ := by
+  unfold windowImpl
+  rw [C16_time_interval]
+  exact C16_window_len ratRint ratTrunc ratRint_isRintHE ratTrunc_nonneg period _ hq hf
+
+example : windowImpl ratRint ratTrunc (3 / 10 : ℚ) 0 50 (2 / 1000) = 3 := by decide +kernel
+
+/-- number of results, and every reported index has its full window inside the trajectory -/
+theorem C16_time_results (T w n : ℕ) :
+    nResults (T : ℤ) (w : ℤ) = (T : ℤ) - (w : ℤ) ∧ ((n : ℤ) < nResults (T : ℤ) (w : ℤ) → n + w ≤ T) := by
+  unfold nResults
+  exact ⟨rfl, fun h => by omega⟩
+
+/-- the value at index `n` is the mean over the `w` consecutive frames n … n+w−1 (per particle / component) -/
+theorem C16_time_avg (T w n : ℕ) (x : ℕ → K) (h : n + w ≤ T) :
+    timeAvgImpl T (w : ℤ) x n = (∑ t ∈ range w, x (n + t)) / (w : K) := by
+  unfold timeAvgImpl sliceLo sliceHi clip
+  have e1 : min ((n : ℤ)).toNat T = n := by omega
+  have e2 : min ((n : ℤ) + (w : ℤ)).toNat T = n + w := by omega
+  simp only [e1, e2, Nat.add_sub_cancel_left, sumRange_eq]
+  push_cast
+  rfl
+
+/-- the same against the hand-written Spec -/
+theorem C16_time_refines (T w n : ℕ) (x : ℕ → K) (h : n + w ≤ T) :
+    timeAvgImpl T (w : ℤ) x n = timeAvgSpec w x n := by
+  rw [C16_time_avg T w n x h]
+  unfold timeAvgSpec
+  rw [sumRange_eq]
+  push_cast
+  rfl
+
+/-- the regenerated reported index is n + ⌊w/2⌋ for all n, w (whatever `round` is) -/
+theorem C16_time_middle (rint : ℚ → ℤ) (n w : ℕ) : middle rint (n : ℤ) (w : ℤ) = ((middleSpec n w : ℕ) : ℤ) := by
+  unfold middle middleSpec
+  push_cast
+  omega
+
+/-- n + ⌊w/2⌋ is the window's central frame: it lies in the window n … n+w−1, the numbers of frames before and after
+it differ by at most one, and are equal for odd `w` -/
+theorem C16_middle_central (n w : ℕ) (hw : 1 ≤ w) :
+    n ≤ middleSpec n w ∧ middleSpec n w ≤ n + w - 1 ∧
+    (middleSpec n w - n = n + w - 1 - middleSpec n w ∨ middleSpec n w - n = n + w - 1 - middleSpec n w + 1) ∧
+    (w % 2 = 1 → middleSpec n w - n = n + w - 1 - middleSpec n w) := by
+  unfold middleSpec
+  omega
+
 end Pms.Coarse
